@@ -351,7 +351,7 @@ func raceScenario(op string) string {
 	cfg.Impl = impl
 	time.Sleep(20 * time.Millisecond)
 	base := runtime.NumGoroutine()
-	var panics int32
+	var panics, early, latePush int32
 	conns := make([]*raceConn, 0, n)
 	sessions := make([]*session.ClientSession, 0, n)
 	held := 0
@@ -383,6 +383,31 @@ func raceScenario(op string) string {
 			for atomic.LoadInt32(&start) == 0 {
 			}
 			s.Close()
+			// a Close() that has returned - whoever did the work - leaves a completely closed session behind
+			impl.mu.Lock()
+			nr := impl.removes[s]
+			impl.mu.Unlock()
+			c.mu.Lock()
+			nc := c.closes
+			c.mu.Unlock()
+			if nr != 1 || nc != 1 {
+				atomic.AddInt32(&early, 1)
+			}
+		}
+		// pushers run freely beside the closers: a push that races with Close is accepted or refused, never a crash
+		pusher := func() {
+			defer wg.Done()
+			defer func() {
+				if e := recover(); e != nil {
+					atomic.AddInt32(&panics, 1)
+				}
+			}()
+			for atomic.LoadInt32(&start) == 0 {
+				runtime.Gosched()
+			}
+			for r := 0; r < 3; r++ {
+				s.Push("front.h.m", []byte("y"))
+			}
 		}
 		if m != nil {
 			// Close's critical section is occupied while the causes arrive
@@ -393,6 +418,10 @@ func raceScenario(op string) string {
 		for j := 0; j < k; j++ {
 			wg.Add(1)
 			go closer()
+		}
+		for j := 0; j < 2; j++ {
+			wg.Add(1)
+			go pusher()
 		}
 		if m != nil {
 			close(c.gone)
@@ -415,6 +444,17 @@ func raceScenario(op string) string {
 			close(c.wfail)
 		}
 		wg.Wait()
+		// after the close a push is refused
+		if func() (accepted bool) {
+			defer func() {
+				if e := recover(); e != nil {
+					atomic.AddInt32(&panics, 1)
+				}
+			}()
+			return s.Push("front.h.m", []byte("z")) == nil
+		}() {
+			atomic.AddInt32(&latePush, 1)
+		}
 	}
 	// everything settles: one OnSessionClose and one conn.Close per session, all goroutines gone
 	left := 0
@@ -442,7 +482,8 @@ func raceScenario(op string) string {
 	}
 	creates := impl.creates
 	impl.mu.Unlock()
-	return fmt.Sprintf("n=%d,creates=%d,removed1=%d,closed1=%d,thrown=%d,left=%d held=%d", n, creates, removed1, closed1, atomic.LoadInt32(&panics), left, held)
+	return fmt.Sprintf("n=%d,creates=%d,removed1=%d,closed1=%d,thrown=%d,left=%d,early=%d,latepush=%d held=%d", n, creates, removed1, closed1,
+		atomic.LoadInt32(&panics), left, atomic.LoadInt32(&early), atomic.LoadInt32(&latePush), held)
 }
 
 func execRace(x *hx.T, op string) string {
